@@ -12,60 +12,39 @@ Section Hist.
   Variable po : addr -> N.
   Variable capacity : N.
 
-  (** the guard of one operation: DelFile meets only registered roots *)
-  Definition op_guard (x : sys) (o : gop) : Prop :=
-    match o with
-    | GDelete root _ => forall sh, trav cat (ls x) root = Some sh -> registered (ci x) root = true
-    | GGcEnd => match s_gcrun (ls x) with
-                | Some ctx => gc_guard cat (ls x) (ci x) (g_cands ctx)
-                | None => True
-                end
-    | _ => True
-    end.
-
-  Fixpoint guarded (x : sys) (h : list gop) : Prop :=
-    match h with
-    | [] => True
-    | o :: t => op_guard x o /\ guarded (fst (gstep cat po capacity x o)) t
-    end.
-
   (** the eviction loop keeps the counts exact *)
-  Lemma evict_RC s0 cands : forall s c b n recycled s1 c1 b1 n1 rec1,
+  Lemma evict_RC cands : forall s c b n recycled s1 c1 b1 n1 rec1,
     gc_evict_ci cat s c b n cands recycled = (s1, c1, b1, n1, rec1) ->
-    s_data s = s_data s0 -> s_dirty s = s_dirty s0 ->
-    RC cat c -> gc_guard cat s0 c cands -> RC cat c1.
+    RC cat c -> RC cat c1.
   Proof.
-    induction cands as [|[k g] rest IH]; intros s c b n recycled s1 c1 b1 n1 rec1 H Hd Hy Hrc Hg; simpl in H.
+    induction cands as [|[k g] rest IH]; intros s c b n recycled s1 c1 b1 n1 rec1 H Hrc; simpl in H.
     - now inversion H; subst.
-    - assert (Et : trav cat s (snd k) = trav cat s0 (snd k)) by now apply trav_data.
-      rewrite Et, Hy in H. simpl in Hg.
-      destruct (trav cat s0 (snd k)) as [sh|] eqn:E; [|eapply IH; eauto].
-      destruct (mem_addr (snd k) (s_dirty s0)); [eapply IH; eauto|].
-      destruct Hg as [Hr Hg].
-      destruct (gc_chunks s b 0 (unrepeat c sh)) as [[s' b'] m] eqn:Eg.
-      apply gc_chunks_frame in Eg as (D & Y & _).
-      eapply IH; [exact H | congruence | congruence | | exact Hg].
-      apply (RC_del_root cat); auto. now apply (trav_cat cat s0).
+    - destruct (trav cat s (snd k)) as [sh|] eqn:E; [|eapply IH; eauto].
+      pose proof (trav_cat cat _ _ _ E) as Ec.
+      assert (R0 : RC cat (register_ci c (snd k) sh)) by now apply RC_register_ci.
+      destruct (mem_addr (snd k) (s_dirty s)); [eapply IH; eauto|].
+      destruct (gc_chunks s b 0 (unrepeat (register_ci c (snd k) sh) sh)) as [[s' b'] m].
+      eapply IH; [exact H|]. apply (RC_del_root cat); auto. apply registered_register_same.
   Qed.
 
-  Lemma RC_step x o : RC cat (ci x) -> op_guard x o -> RC cat (ci (fst (gstep cat po capacity x o))).
+  (** every operation keeps the counts exact *)
+  Lemma RC_step x o : RC cat (ci x) -> RC cat (ci (fst (gstep cat po capacity x o))).
   Proof.
-    intros Hrc Hg. destruct o as [o'|root|root order|t bs|]; simpl.
+    intros Hrc. destruct o as [o'|root|root order|t bs|]; simpl.
     - destruct (ls_call o'); [|exact Hrc]. destruct (step po capacity (ls x) o'). exact Hrc.
     - now apply RC_register.
     - destruct (api_delete cat capacity root order x) as [x' ob] eqn:E. simpl.
-      destruct (api_delete_ci cat capacity root order x x' ob E) as [->|[sh [Et ->]]]; [exact Hrc|].
-      apply (RC_del_root cat); auto; [now apply (Hg sh) | now apply (trav_cat cat (ls x))].
+      exact (api_delete_RC cat capacity root order x x' ob E Hrc).
     - destruct (gc_begin t bs (ls x)). exact Hrc.
-    - unfold gc_end_ci. simpl in Hg. destruct (s_gcrun (ls x)) as [ctx|]; [|exact Hrc].
+    - unfold gc_end_ci. destruct (s_gcrun (ls x)) as [ctx|]; [|exact Hrc].
       destruct (gc_evict_ci cat (ls x) (ci x) [] 0 (g_cands ctx) []) as [[[[s1 c1] b1] n] recycled] eqn:E.
       simpl. eapply evict_RC; eauto.
   Qed.
 
-  Lemma RC_history h : forall x, RC cat (ci x) -> guarded x h -> RC cat (ci (gexec cat po capacity x h)).
+  Lemma RC_history h : forall x, RC cat (ci x) -> RC cat (ci (gexec cat po capacity x h)).
   Proof.
-    induction h as [|o t IH]; intros x Hrc Hg; simpl in *; [exact Hrc|].
-    destruct Hg as [G1 G2]. apply IH; [now apply RC_step | exact G2].
+    induction h as [|o t IH]; intros x Hrc; simpl in *; [exact Hrc|].
+    apply IH. now apply RC_step.
   Qed.
 
   (** *** readability *)
@@ -95,23 +74,21 @@ Section Hist.
   Qed.
 
   Lemma refcount_thm (h : list gop) :
-    guarded sys_init h ->
     let c := ci (gexec cat po capacity sys_init h) in
     NoDup (map fst (ci_hash c)) /\ forall a, cnt c a = refs cat c a.
-  Proof. intros Hg. exact (RC_history h sys_init (RC_init cat) Hg). Qed.
+  Proof. exact (RC_history h sys_init (RC_init cat)). Qed.
 
   Lemma gc_protects_thm (h : list gop) ctx rb shb a :
-    guarded sys_init h ->
     let x := gexec cat po capacity sys_init h in
-    s_gcrun (ls x) = Some ctx -> gc_guard cat (ls x) (ci x) (g_cands ctx) ->
+    s_gcrun (ls x) = Some ctx ->
     registered (ci x) rb = true -> cat_get cat rb = Some shb -> ~ In rb (cand_roots (g_cands ctx)) ->
     In a (cidset shb) -> ~ In a (cand_roots (g_cands ctx)) ->
     data_get (ls (gc_run x)) a = data_get (ls x) a /\ pin_get (ls (gc_run x)) a = pin_get (ls x) a.
   Proof.
-    intros Hg x Hrun Hgg Hreg Hcat Hnc Hin Hroot.
-    pose proof (RC_history h sys_init (RC_init cat) Hg) as Hrc. fold x in Hrc.
+    intros x Hrun Hreg Hcat Hnc Hin Hroot.
+    pose proof (RC_history h sys_init (RC_init cat)) as Hrc. fold x in Hrc.
     unfold gc_run. simpl. destruct (gc_end_ci cat x) as [x' o] eqn:E.
-    destruct (gc_end_protects cat a rb shb x x' o ctx E Hrun Hrc Hgg Hreg Hcat Hnc Hin Hroot) as (A & B & _).
+    destruct (gc_end_protects cat a rb shb x x' o ctx E Hrun Hrc Hreg Hcat Hnc Hin Hroot) as (A & B & _).
     split; assumption.
   Qed.
 
@@ -125,17 +102,18 @@ Section Hist.
     - assert (Hn' : ~ In rb (cand_roots rest)) by (intros Hr; apply Hn; now right).
       assert (Hne : rb <> snd k) by (intros E; apply Hn; left; now rewrite E).
       destruct (trav cat s (snd k)) as [sh|]; [|eapply IH; eauto].
-      destruct (mem_addr (snd k) (s_dirty s)); [eapply IH; eauto|].
-      destruct (gc_chunks s b 0 (unrepeat c sh)) as [[s' b'] m].
-      rewrite (IH _ _ _ _ _ _ _ _ _ _ H Hn'). now apply registered_del_other.
+      destruct (mem_addr (snd k) (s_dirty s)).
+      + rewrite (IH _ _ _ _ _ _ _ _ _ _ H Hn'). now apply registered_register_other.
+      + destruct (gc_chunks s b 0 (unrepeat (register_ci c (snd k) sh) sh)) as [[s' b'] m].
+        rewrite (IH _ _ _ _ _ _ _ _ _ _ H Hn'). rewrite registered_del_other by exact Hne.
+        now apply registered_register_other.
   Qed.
 
   (** C16, eviction: every other registered file keeps every chunk (bytes and pin), stays
       as readable as it was and stays registered, provided no candidate root is one of its chunks *)
   Lemma gc_others_thm (h : list gop) ctx rb shb :
-    guarded sys_init h ->
     let x := gexec cat po capacity sys_init h in
-    s_gcrun (ls x) = Some ctx -> gc_guard cat (ls x) (ci x) (g_cands ctx) ->
+    s_gcrun (ls x) = Some ctx ->
     registered (ci x) rb = true -> cat_get cat rb = Some shb -> ~ In rb (cand_roots (g_cands ctx)) ->
     (forall r, In r (cand_roots (g_cands ctx)) -> ~ In r (cidset shb)) ->
     (forall a, In a (cidset shb) ->
@@ -143,7 +121,7 @@ Section Hist.
     readable cat (ls (gc_run x)) rb = readable cat (ls x) rb /\
     registered (ci (gc_run x)) rb = true.
   Proof.
-    intros Hg x Hrun Hgg Hreg Hcat Hnc Hroots.
+    intros x Hrun Hreg Hcat Hnc Hroots.
     assert (K : forall a, In a (cidset shb) ->
        data_get (ls (gc_run x)) a = data_get (ls x) a /\ pin_get (ls (gc_run x)) a = pin_get (ls x) a).
     { intros a Hin. apply (gc_protects_thm h ctx rb shb a); auto. intros Hr. exact (Hroots a Hr Hin). }
@@ -155,27 +133,29 @@ Section Hist.
   Qed.
 
   (** C16, DELETE: every other registered file keeps every chunk, stays as readable as it was
-      and stays registered, provided the deleted root is not one of its chunks *)
+      and stays registered *)
   Lemma delete_others_thm (h : list gop) root order rb shb :
-    guarded sys_init h ->
     let x := gexec cat po capacity sys_init h in
-    (forall sh, trav cat (ls x) root = Some sh -> registered (ci x) root = true) ->
-    registered (ci x) rb = true -> cat_get cat rb = Some shb -> rb <> root -> ~ In root (cidset shb) ->
+    registered (ci x) rb = true -> cat_get cat rb = Some shb -> rb <> root ->
     (forall a, In a (cidset shb) ->
        data_get (ls (delete_run root order x)) a = data_get (ls x) a /\
        pin_get (ls (delete_run root order x)) a = pin_get (ls x) a) /\
     readable cat (ls (delete_run root order x)) rb = readable cat (ls x) rb /\
     registered (ci (delete_run root order x)) rb = true.
   Proof.
-    intros Hg x Hgd Hreg Hcat Hne Hroot.
-    pose proof (RC_history h sys_init (RC_init cat) Hg) as Hrc. fold x in Hrc.
+    intros x Hreg Hcat Hne.
+    pose proof (RC_history h sys_init (RC_init cat)) as Hrc. fold x in Hrc.
     unfold delete_run. simpl. destruct (api_delete cat capacity root order x) as [x' o] eqn:E. simpl.
     assert (K : forall a, In a (cidset shb) -> data_get (ls x') a = data_get (ls x) a /\ pin_get (ls x') a = pin_get (ls x) a).
-    { intros a Hin. assert (Har : a <> root) by (intros ->; contradiction).
-      destruct (api_delete_protects cat capacity a root order rb shb x x' o E Hrc Hgd Hreg Hcat Hne Hin Har) as [S _]. exact S. }
+    { intros a Hin.
+      destruct (api_delete_protects cat capacity a root order rb shb x x' o E Hrc Hreg Hcat Hne Hin) as [S _]. exact S. }
     split; [exact K|]. split.
     - apply (readable_same x x' rb shb Hcat). intros a Ha. exact (proj1 (K a Ha)).
-    - destruct (api_delete_ci cat capacity root order x x' o E) as [->|[sh [Et ->]]]; [exact Hreg|].
-      now rewrite registered_del_other.
+    - destruct (cidset shb) as [|a0 l] eqn:El.
+      + destruct (api_delete_ci cat capacity root order x x' o E) as [ -> | [sh [Et [ -> | -> ]]]]; [exact Hreg| |].
+        * now apply registered_register_mono.
+        * rewrite registered_del_other by exact Hne. now apply registered_register_mono.
+      + assert (Ha0 : In a0 (cidset shb)) by (rewrite El; now left).
+        destruct (api_delete_protects cat capacity a0 root order rb shb x x' o E Hrc Hreg Hcat Hne Ha0) as (_ & _ & R). exact R.
   Qed.
 End Hist.
